@@ -45,7 +45,6 @@ func newInfluxDBOutNode(et *ExecutingTask, n *pipeline.InfluxDBOutNode, d NodeDi
 		batchBuffer: new(edge.BatchBuffer),
 	}
 	in.node.runF = in.runOut
-	in.node.stopF = in.stopOut
 	in.wb.i = in
 	return in, nil
 }
@@ -59,6 +58,9 @@ func (n *InfluxDBOutNode) runOut([]byte) error {
 
 	// Start the write buffer
 	n.wb.start()
+	// Flush and stop the write buffer once the input edge has been drained,
+	// so that points still queued on the edge when the task is stopped are written.
+	defer n.stopOut()
 
 	// Create the database and retention policy
 	if n.i.CreateFlag {
